@@ -23,7 +23,8 @@ from zoo import meshes as Z
 PROPERTY = "C15"
 
 OPS = ["solve_a", "solve_b", "save", "folder0", "folderA", "folderB", "set0", "setlast", "get0", "res0", "replacemesh", "saveload"]
-PREFIXES = {"mem": ["solve_a", "save"], "disk": ["folderA", "solve_a", "save"], "two": ["solve_a", "save", "solve_b", "save"],
+PREFIXES = {"init": ["save", "solve_a", "save"],  # iteration 0 = the initial state, saved before any solve; iteration 1 solved
+            "mem": ["solve_a", "save"], "disk": ["folderA", "solve_a", "save"], "two": ["solve_a", "save", "solve_b", "save"],
             "twomesh": ["solve_a", "save", "replacemesh", "solve_b", "save"]}
 
 MESHES = {
@@ -386,7 +387,7 @@ def cases(tier, seed):
 def describe(tier, seed):
     depth = 2 if tier == "quick" else 3
     return {
-        "rule": f"E2 unmerged: 10 simulation scenarios x 4 prefixes (iteration 0 kept in memory / written to disk / two stored iterations / two iterations on two meshes) x every sequence of the {len(OPS)} operations "
+        "rule": f"E2 unmerged: 10 simulation scenarios x 5 prefixes (iteration 0 = initial state saved before any solve / iteration 0 kept in memory / written to disk / two stored iterations / two iterations on two meshes) x every sequence of the {len(OPS)} operations "
                 f"of length 1..{depth}; after every operation: every stored iteration still equals the snapshot taken when it was saved, reading a stored iteration "
                 "leaves the live state and the count unchanged, a restore brings back the fields, mesh and internal variables of the snapshot, "
                 "Result(name, iter=0) equals the value recorded at save time, Load_Simu(Save()) has the same mesh, tags, count and stored iterations. "
